@@ -1,5 +1,6 @@
 import Driver.XsdD
 import ZeepModel.Xsd.BindKw
+import ZeepModel.Xsd.BindKwRecord
 namespace Driver
 open Lean Zeep.BindKw
 
@@ -47,5 +48,20 @@ def bindKw (j : Json) : R Json := do
       | .ok out => Json.mkObj (base ++ [("rendered", jPairs out)])
       | .error _ => Json.mkObj (base ++ [("rendered", Json.str "ValidationError")])
   | .error (.unexpectedKeyword k) => Json.mkObj [("error", Json.str "TypeError"), ("key", Json.str k)]
+
+/-! `bind.kwrecord`: a keyword call on a signature of required elements and required choices between elements, bound
+(`processKw`) and rendered (`renderRecord`): the children written, as [name, text] pairs, or the class of the error. -/
+def bindKwRecord (j : Json) : R Json := do
+  let items ← listOf parseKwItem (← fld j "items")
+  let kw ← listOf (fun kv => do
+    let a ← arr kv
+    pure ((← str (← at! a 0)), (← parseKwVal (← at! a 1)))) (← fld j "kw")
+  pure <| match processKw items [] kw with
+  | .error _ => Json.mkObj [("error", Json.str "TypeError")]
+  | .ok fields =>
+    match renderRecord fields items with
+    | .error _ => Json.mkObj [("error", Json.str "ValidationError")]
+    | .ok nodes => Json.mkObj [("children", Json.arr (nodes.map fun n =>
+        Json.arr #[Json.str n.tag.name, Json.str (n.text.getD "")]).toArray)]
 
 end Driver
